@@ -653,6 +653,10 @@ Proof.
     rewrite Hc in E5. discriminate.
 Qed.
 
+(* "one name per algorithm": the names enter only through the NUMBER of list entries (repeats count, distinctness is not asked) *)
+Lemma poser_check_names_length ss n1 n2 : length n1 = length n2 -> poser_check ss n1 = poser_check ss n2.
+Proof. intros H. unfold poser_check. rewrite H. reflexivity. Qed.
+
 (* the clause that fires is the first one violated, in the order of the code *)
 Lemma poser_first_clause ss names k : poser_check ss names = Some k -> 1 <= k <= 5.
 Proof.
